@@ -1904,6 +1904,10 @@ def replace_pad_by_hw_pad(op: Operation, arch, nng) -> Operation:
         if op.read_offsets[0] is not None or op.read_shapes[0] is not None:
             # The part of the IFM that the operator reads is given in coordinates of the padded tensor
             return op
+        if op.original_type == Op.AvgPool and op.type == Op.Conv2DBias:
+            # An average pool with a wide stride that was converted to a convolution computes with the zero points
+            # forced to 0, hardware padding would insert the value 0 instead of the IFM zero point
+            return op
         if pad_op.ifm.dtype != pad_op.ofm.dtype or not check_quantized_tens_scaling_equal(pad_op.ofm, pad_op.ifm):
             return op
         top, left, bottom, right = get_pad_values_from_input(pad_op.inputs[1].values)
